@@ -164,4 +164,39 @@ nil inner map would make the two passes disagree; with the current code the put 
 example : valuesToCellblocks ⟨[1], .put, maxTimestamp, false⟩ [([10], none)] [([10], none)]
     = .ok ([], 0, 0) := by decide
 
+/-! ## Mutations inside a multi-request: how a reader attributes cells to actions
+
+A multi-request carries one cellblock stream for all its actions; each mutation only says how
+many cells are its own (`associated_cell_count`). A reader takes the cells off the stream in
+request order. `dealOut` is that procedure (it is also what `harness/c10batch.go` does before it
+hands each action to the single-mutation judgement). -/
+
+/-- Take `n₁` cells for the first action, `n₂` for the second, … off the stream. -/
+def dealOut {α : Type} : List Nat → List α → List (List α)
+  | [], _ => []
+  | n :: ns, xs => xs.take n :: dealOut ns (xs.drop n)
+
+/-- **If the cells are written in the order of the actions, every action gets back exactly its own
+cells** — whatever the counts (also zero-cell mutations such as whole-row deletes) and however many
+actions there are. -/
+theorem dealOut_flatten {α : Type} (ls : List (List α)) :
+    dealOut (ls.map List.length) ls.flatten = ls := by
+  induction ls with
+  | nil => rfl
+  | cons l ls ih =>
+    simp only [List.map_cons, List.flatten_cons, dealOut, List.take_left', List.drop_left']
+    rw [ih]
+
+/-- … and the stream is used up: nothing is left over for a reader to trip on. -/
+theorem dealOut_consumes {α : Type} (ls : List (List α)) :
+    (ls.map List.length).sum = ls.flatten.length := by
+  induction ls with
+  | nil => rfl
+  | cons l ls ih => simp only [List.map_cons, List.sum_cons, List.flatten_cons, List.length_append, ih]
+
+/-- The other direction is what the seeded change C10-m8 / C12-m10 shows: with the counts in
+action order and the cells in another order, actions receive each other's cells (here a one-cell
+put and a two-cell put swapped). -/
+example : dealOut [1, 2] ([[20, 21], [10]] : List (List Nat)).flatten = [[20], [21, 10]] := by decide
+
 end GV.Cell
